@@ -348,6 +348,10 @@ func (h *hnode) Shutdown() error {
 	h.mu.Lock()
 	h.shutE = true
 	h.mu.Unlock()
+	if h.nid%3 == 1 {
+		// a Shutdown that reports an error has still returned: the framework logs it and carries on
+		return errors.New("scripted shutdown error")
+	}
 	return nil
 }
 
